@@ -1276,6 +1276,7 @@ def build_literals(repo):
         Rule("R13", "* second = $$e ;", "second = $$e ;", why="write through &mut -> local"),
         Rule("R1", "first . clone ( )", "clone_prim ( & first )", why="Primitive::clone"),
         Rule("R1", "second . clone ( )", "clone_prim ( & second )", why="Primitive::clone"),
+        Rule("R1", "$v . clone ( )", lambda b: f'clone_prim ( & {text(b["v"])} )' if len(b["v"]) == 1 and b["v"][0] not in ("name", "args", ")") and b["v"][0].isidentifier() else None, why="Primitive::clone of a local"),
         # printn
         Rule("R9", "arg == \"*\"", "text_is_star ( arg )", why="String == literal"),
         Rule("R3", "log :: warn ! $a ;", "", why="logging dropped"),
@@ -1309,9 +1310,9 @@ def build_literals(repo):
     INVP = ("invariant 1 <= verif_k <= operating_stack.len(), *operating_stack == ctx.stack, *ctx == *old(ctx), out.lines@ == old(out).lines@, "
             "out.cur@ == old(out).cur@ + joined(ctx.stack@, verif_k as int) decreases operating_stack.len() - verif_k")
     pr = translate(list(fp["body"]), [
-        Rule("R2", "for var in operating_stack . iter ( ) . skip ( 1 ) { $$body }",
-             lambda b: ["let mut verif_k : usize = 1 ; while verif_k < operating_stack . len ( )", G(INVP), "{ let var = & operating_stack [ verif_k ] ; verif_k += 1 ;", *b["body"],
-                        G("proof { assert(out.cur@ =~= old(out).cur@ + joined(ctx.stack@, verif_k as int)); }"), "}"], count=1, why="for over iter().skip(1) -> indexed while from 1"),
+        Rule("R2", "for var in operating_stack . iter ( ) . skip ( $n ) { $$body }",
+             lambda b: [f"let mut verif_k : usize = {text(b['n'])} ; while verif_k < operating_stack . len ( )", G(INVP), "{ let var = & operating_stack [ verif_k ] ; verif_k += 1 ;", *b["body"],
+                        G("proof { assert(out.cur@ =~= old(out).cur@ + joined(ctx.stack@, verif_k as int)); }"), "}"], count=1, why="for over iter().skip(n) -> indexed while from n"),
     ] + extra + HANDLER_RULES, log, "implementations::printn", generic=False)
     from vlib.core import _generic_rules
     for r in _generic_rules():
